@@ -245,10 +245,24 @@ def lcg (s : Nat) : Nat := (s * 6364136223846793005 + 1442695040888963407) % 184
 def thin (stride off : Nat) (l : List α) : List α :=
   (l.zipIdx.filter fun (_, i) => (i + off) % stride = 0).map (·.1)
 
+/-- bytes for the random scripts: ESC, `[`, `A`, CAN, SUB, LF, `]`, `x`, `\`, `P`, `q`, BEL, `O` -/
+def alphabet : List Nat := [0x1B, 0x1B, 0x1B, 0x5B, 0x41, 0x18, 0x1A, 0x0A, 0x5D, 0x78, 0x5C, 0x50, 0x71, 0x07, 0x4F]
+
+/-- pseudo-random scripted inputs (1–5 bytes, at least one ESC) with pseudo-random complete schedules -/
+def randomSchedules (seed n : Nat) : List (List SLabel) :=
+  (List.range n).filterMap fun j =>
+    let s0 := lcg (seed * 2654435761 + j * 40503 + 17)
+    let len := 1 + (s0 / 65536) % 5
+    let (ins, s1) := (List.range len).foldl (fun (acc : List Nat × Nat) _ =>
+      let s := lcg acc.2
+      (acc.1 ++ [alphabet.getD ((s / 4294967296) % alphabet.length) 0x1B], s)) ([], s0)
+    let ins := if ins.contains 0x1B then ins else 0x1B :: ins
+    sample genTable 400 {} ins ((s1 / 1048576) % 3 = 0) (lcg s1) []
+
 def schedules (thorough : Bool) (seed : Nat) : List (List SLabel) :=
   let cap := if thorough then 60000 else 20000
   let perScript := if thorough then 6000 else 300
-  scripts.flatMap fun (ins, mayClose) =>
+  (scripts.flatMap fun (ins, mayClose) =>
     let all := (enumerate genTable 80 {} ins mayClose [] cap []).reverse
     let picked := if all.length ≤ perScript then all else
       let stride := (all.length + perScript - 1) / perScript
@@ -256,7 +270,7 @@ def schedules (thorough : Bool) (seed : Nat) : List (List SLabel) :=
     let nRand := if thorough then 200 else 20
     let rnd := (List.range nRand).filterMap fun j =>
       sample genTable 200 {} ins mayClose (lcg (seed * 1000003 + j * 7919 + ins.length)) []
-    picked ++ rnd
+    picked ++ rnd) ++ randomSchedules seed (if thorough then 6000 else 400)
 
 def step (line : String) : String :=
   let (op, impl) := splitTab line
